@@ -625,6 +625,14 @@ def run(ctx):
     # the table discharges `unwrap_at("resolve_foreign_keys_1")` with "the recorded path is found again, directly or at the merged
     # plural key": that the retry asks for exactly the key merge_plurals merged the form under is decided by evaluating both
     # functions on the same key spellings (rules/fkeval.py, shared with C06.R4)
+    # ... and that the recorded path still leads to the value it was recorded for: a later key of the same file spelled the same (`"a"` twice,
+    # or `"a"` and `" a"`) must not replace the subtree - the duplicate-key clause of C10.R7 (any policy other than an error depends on the
+    # order of the keys, which is what that rule evaluates)
+    from rules import c10 as _c10
+    from rules.common import borrow as _borrow
+    p5 = _borrow(_c10.r7_key_order(ctx), "C09.P5", "a key written twice in a file cannot remove the subtree a reference path was recorded in",
+                 "`never panics`: get_value_at_path(..).unwrap_at(\"resolve_foreign_keys_1\") is reached with every path recorded while the file was read; a second key with "
+                 "the same (trimmed) name that silently replaces the first leaves a recorded path pointing at nothing", only=r"LocaleSeed", floor=1)
     from rules import fkeval, absint as _absint
     p4 = Rule("C09.P4", "the reason a table entry gives for a site is itself checked: recorded reference paths are found after plurals merge",
               "`never panics`: get_value_at_path(..).unwrap_at(\"resolve_foreign_keys_1\") is safe only while the key it retries at is the one "
@@ -635,6 +643,7 @@ def run(ctx):
     except _absint.Unknown as u:
         p4.viol("P4:undecided", "cannot be interpreted on the current code (%s): not decided on this tree (fail closed)" % str(u)[:300])
     rules.append(p4)
+    rules.append(p5)
     return rules
 
 MANIFEST_ENTRY = {
